@@ -297,6 +297,9 @@ class Inliner:
                     return c                        # an argument would have to be bound to a local: not inside an expression
                 me.count += 1
                 new = _Rename(rename, subst).visit(copy.deepcopy(h.expr))
+                for x in ast.walk(new):                     # every node of the copy sits where the call was (not where the helper is defined)
+                    if isinstance(x, (ast.expr, ast.stmt)):
+                        ast.copy_location(x, c)
                 return ast.copy_location(new, c)
 
             def visit_Lambda(self2, n):
